@@ -1,6 +1,7 @@
 package main
 
 import (
+	"os"
 	"fmt"
 	"go/token"
 	"go/types"
@@ -14,7 +15,7 @@ import (
 
 func init() {
 	register(&Property{
-		ID: "C10",
+		ID:          "C10",
 		Explanation: "R1 (cap): the store of an increased current weight V = k x curWeight (k a constant > 1) executes only on an edge implying C - V >= 0 with C a constant <= 4096, so no adjustment raises a weight above the cap. R2 (direction): in the marked-adjustment routine every store to a record's current weight is control-dependent on that record's good flag being true; the flag is set true exactly on the edge where the record's rating is a member of the 'good' result of the outlier splitter and false otherwise; the normalisation divides every record by the same value in a full range loop with no per-record condition (share-preserving). Hence an adjustment made with outliers present never raises an outlier's share. R3 (back-off): everything that applies weights from adjustWeights lies on the true edge of the timer-expired test, which is evaluated with the rebalancer mutex held; each applying routine returns true exactly on the paths that applied, and on that edge the timer is re-armed with now + backoffDuration on every path. R4 (reset): reset() restores curWeight := origWeight for every record, re-applies it to the wrapped balancer, re-arms the timer and re-allocates the ratings buffer with exactly len(servers) entries unconditionally; every successful upsert/remove passes reset() (C02.R2). R5 (convergence target): the decrease routine's result is an if-then-else between its target and current/factor that can never be below the target.",
 		NotDecided: []string{
 			"the weight >= 1 floor after gcd normalisation, 'loses share within two back-off intervals', 'back to the configured proportions within six adjustments' and the outlier statistic itself: numerical facts over rating histories, no sound static argument in reach",
@@ -281,22 +282,18 @@ func runC10(p *Prog, r *Report) {
 			}
 			// result/event correlation in f
 			okCorr := f.Signature.Results().Len() == 1
-			for _, ret := range Returns(f) {
-				v, isC := constBool(ReturnOperand(ret, 0))
-				if !isC {
-					okCorr = false
-					continue
+			if okCorr {
+				// event: an instruction that (through statically resolved callees) reaches the application of
+				// weights to the wrapped balancer; an empty pool applies nothing, which is fine either way
+				// relational fixpoint over (applied so far, flag values): exact for flags carried around loops
+				pairs, okA := BoolCorr(f, 0, rb.apply.MayInstr, nil)
+				if os.Getenv("OXY_DEBUG") != "" {
+					fmt.Fprintln(os.Stderr, "BoolCorr", FName(f), okA, pairs)
 				}
-				if v && ReachableAvoiding(f, nil, ret, rb.apply.MayInstr, nil) {
-					okCorr = false
-				}
-				if !v {
-					for _, b := range f.Blocks {
-						for _, in := range b.Instrs {
-							if rb.apply.MayInstr(in) && Reach(f, in, nil, nil)[ret] {
-								okCorr = false
-							}
-						}
+				okCorr = okA && pairs[bcPair{true, true}]
+				for pr := range pairs {
+					if pr.E != pr.Val {
+						okCorr = false
 					}
 				}
 			}
@@ -487,5 +484,6 @@ func mutantsC10() []Mutant {
 		{Name: "normalize-only-good", File: f, Old: "\tfor _, s := range rb.servers {\n\t\ts.curWeight /= gcd\n\t}", New: "\tfor _, s := range rb.servers {\n\t\tif s.good {\n\t\t\ts.curWeight /= gcd\n\t\t}\n\t}", Expect: "C10.R2"},
 		{Name: "apply-without-timer", File: f, Old: "\tif !rb.timerExpired() {\n\t\treturn\n\t}\n", New: "", Expect: "C10.R3"},
 		{Name: "settimer-zero-backoff", File: f, Old: "\trb.timer = clock.Now().UTC().Add(rb.backoffDuration)", New: "\trb.timer = clock.Now().UTC()", Expect: "C10.R3"},
+		{Name: "converge-skips-below-configured", File: "roundrobin/rebalancer.go", Old: "\t\tif s.origWeight == s.curWeight {\n\t\t\tcontinue\n\t\t}\n", New: "\t\tif s.curWeight <= s.origWeight {\n\t\t\tcontinue\n\t\t}\n", Expect: "C10.R5"},
 	}
 }
